@@ -1,8 +1,8 @@
 (* C13 -- Archives written by desync are well-formed casync catar.
    Only statements, [exact], Print Assumptions and Examples live here. *)
 From Coq Require Import List NArith Arith Permutation Sorted.
-From DS Require Import Gen.Constants Base.Bytes Base.LE64 Model.Format Model.Goodbye Model.Sip Model.Tar
-     Proofs.GoodbyeProofs Proofs.TarProofs.
+From DS Require Import Gen.Constants Base.Bytes Base.LE64 Model.Format Model.Goodbye Model.Sip Model.Tar Model.TarSink
+     Proofs.GoodbyeProofs Proofs.TarProofs Proofs.TarSinkProofs.
 Import ListNotations.
 
 (* makeGoodbyeBST, for EVERY number of directory entries and every list of items (duplicated
@@ -143,3 +143,40 @@ Example C13_tar_stream_example :
    let t := NDir m [] [([98], NFile m [] [1]); ([97], NFile m [] [])] in
    validate false (tar_bytes t) = Some t /\ validate true (tar_bytes t) = None)%N.
 Proof. vm_compute. split; reflexivity. Qed.
+
+(* ---------------------------------------------------------------------------------------
+   Success means a complete archive.  [tar_into v t k] (Model/TarSink.v) is Tar() writing the
+   elements of t onto a target that accepts k bytes and then fails every write (short write +
+   error), with FormatEncoder.Encode's error handling as it is (v = EncFixed); the result is
+   what the target holds and whether Tar() returned nil. *)
+
+(* Tar() == nil  =>  the target holds the whole archive (so it fitted) ... *)
+Theorem C13_tar_success_complete : forall t k b,
+  tar_into EncFixed t k = (b, true) -> b = tar_bytes t /\ (lenN (tar_bytes t) <= k)%N.
+Proof. exact tar_into_ok_proof. Qed.
+Print Assumptions C13_tar_success_complete.
+
+(* ... hence a well-formed catar of the whole tree (disk source: ord = true, tar stream: false) *)
+Theorem C13_tar_success_wellformed : forall ord t k b,
+  good ord t -> (snd (tar_node t) < two64)%N ->
+  tar_into EncFixed t k = (b, true) -> validate ord b = Some (casync_view t).
+Proof. exact tar_into_wellformed_proof. Qed.
+Print Assumptions C13_tar_success_wellformed.
+
+(* non-vacuity: with room for the archive Tar() does return nil *)
+Theorem C13_tar_success_possible : forall v t k,
+  (lenN (tar_bytes t) <= k)%N -> tar_into v t k = (tar_bytes t, true).
+Proof. exact tar_into_fits_proof. Qed.
+Print Assumptions C13_tar_success_possible.
+
+(* What the error check in the goodbye item loop is for: if the item write's error is dropped
+   (EncSwallow: `n += n1; if err != nil { break }; ...; return n, err` with the outer err), a
+   target that runs full 30 bytes before the end of the archive makes Tar() return nil for a
+   cut-off archive the reader rejects; the code as it is reports the error for the same bytes. *)
+Theorem C13_tar_swallowed_error_refuted :
+  exists t k b, tar_into EncSwallow t k = (b, true) /\ lenN b = k /\ validate true b = None /\
+                fst (tar_into EncFixed t k) = b /\ snd (tar_into EncFixed t k) = false.
+Proof.
+  exists ex_sink_tree, (lenN (tar_bytes ex_sink_tree) - 30)%N. exact tar_into_swallow_refuted_proof.
+Qed.
+Print Assumptions C13_tar_swallowed_error_refuted.
